@@ -1982,6 +1982,11 @@ impl<'data, P: Platform> GroupActivationInputs<'data, P> {
         };
 
         let mut should_delay_processing = false;
+        #[cfg(feature = "verif_hooks")]
+        {
+            crate::verif_hooks::perturb(1);
+            crate::verif_hooks::evlog::ev(1, group_index as u64, 0);
+        }
 
         for file in &mut group.files {
             let r = activate::<A>(&mut group.common, file, &mut group.queue, resources, scope)
@@ -1998,18 +2003,30 @@ impl<'data, P: Platform> GroupActivationInputs<'data, P> {
         }
 
         if should_delay_processing {
+            #[cfg(feature = "verif_hooks")]
+            let verif_held = crate::verif_hooks::evlog::hold();
             resources.delay_processing.push(group).unwrap();
+            #[cfg(feature = "verif_hooks")]
+            verif_held.push_and_release(2, group_index as u64, 0);
         } else {
             group.do_pending_work::<A>(resources, scope);
         }
 
+        #[cfg(feature = "verif_hooks")]
+        crate::verif_hooks::perturb(2);
+        #[cfg(feature = "verif_hooks")]
+        let verif_held = crate::verif_hooks::evlog::hold();
         let remaining = resources
             .activations_remaining
             .fetch_sub(1, atomic::Ordering::Relaxed)
             - 1;
+        #[cfg(feature = "verif_hooks")]
+        verif_held.push_and_release(3, group_index as u64, remaining as u64);
 
         if remaining == 0 {
             while let Some(group) = resources.delay_processing.pop() {
+                #[cfg(feature = "verif_hooks")]
+                crate::verif_hooks::evlog::ev(4, group.queue.index as u64, 0);
                 group.do_pending_work::<A>(resources, scope);
             }
         }
@@ -2057,6 +2074,15 @@ fn find_required_sections<'data, A: Arch>(
     rayon::in_place_scope(|scope| {
         queue_initial_group_processing::<A>(groups_in, symbol_db, resources_ref, scope);
     });
+    #[cfg(feature = "verif_hooks")]
+    {
+        crate::verif_hooks::evlog::ev(9, num_groups as u64, resources.errors.lock().unwrap().len() as u64);
+        for (i, slot) in resources.worker_slots.iter().enumerate() {
+            let slot = slot.lock().unwrap();
+            crate::verif_hooks::evlog::ev(10, i as u64, (slot.work.len() as u64) << 1 | u64::from(slot.worker.is_some()));
+        }
+        crate::verif_hooks::evlog::dump("gc");
+    }
 
     let mut errors: Vec<Error> = take(resources.errors.lock().unwrap().as_mut());
     // TODO: Figure out good way to report more than one error.
@@ -2147,16 +2173,24 @@ impl<'data, P: Platform> GroupState<'data, P> {
                     &mut self.queue,
                     scope,
                 ) {
+                    #[cfg(feature = "verif_hooks")]
+                    crate::verif_hooks::evlog::ev(5, self.queue.index as u64, 0);
                     resources.report_error(error);
                     return;
                 }
             }
+            #[cfg(feature = "verif_hooks")]
+            crate::verif_hooks::perturb(3);
             {
                 let mut slot = resources.worker_slots[self.queue.index].lock().unwrap();
                 if slot.work.is_empty() {
+                    #[cfg(feature = "verif_hooks")]
+                    crate::verif_hooks::evlog::ev(6, self.queue.index as u64, 0);
                     slot.worker = Some(self);
                     return;
                 }
+                #[cfg(feature = "verif_hooks")]
+                crate::verif_hooks::evlog::ev(7, self.queue.index as u64, slot.work.len() as u64);
                 swap(&mut slot.work, &mut self.queue.local_work);
             };
         }
@@ -2323,13 +2357,19 @@ impl<'data, P: Platform> GraphResources<'data, '_, P> {
         scope: &Scope<'scope>,
     ) {
         let worker;
+        #[cfg(feature = "verif_hooks")]
+        crate::verif_hooks::perturb(4);
         {
             let mut slot = self.worker_slots[file_id.group()].lock().unwrap();
             worker = slot.worker.take();
             slot.work.push(work);
+            #[cfg(feature = "verif_hooks")]
+            crate::verif_hooks::evlog::ev(8, file_id.group() as u64, u64::from(worker.is_some()));
         };
         if let Some(worker) = worker {
             scope.spawn(|scope| {
+                #[cfg(feature = "verif_hooks")]
+                crate::verif_hooks::perturb(5);
                 verbose_timing_phase!("Work with object");
                 worker.do_pending_work::<A>(resources, scope);
             });
